@@ -143,6 +143,8 @@ FaultRule(cmd, ctr, at, kind) ==
   [rule |-> "fault", when |-> <<IsCmd(cmd)>>, ifstate |-> <<St(ctr, at), St("f", 0)>>, effects |-> <<Inc(ctr), Set("f", 1)>>,
    datagrams |-> CASE kind = "cc" -> Reply(DynMsgRsp(11, cmd, 193, B(<<>>)))
                    [] kind = "short" -> Reply(DynMsgRsp(11, cmd, 0, B(<<7>>)))
+                   \* a body read answered with the next-record ID and only five bytes of record data
+                   [] kind = "shortbody" -> Reply(DynMsgRsp(11, cmd, 0, B(<<255, 255, 32, 1, 2, 3, 4>>)))
                    [] OTHER -> <<>>]
 FaultScript(id, pre, cmd, ctr, at, kind) ==
   LET b == Script(id, pre, <<>>, NoEvent) IN
@@ -153,6 +155,11 @@ FaultScript(id, pre, cmd, ctr, at, kind) ==
 Faults ==
   UNION { LET pre == Repo(bb[1] * 10 + bb[2] + Seed, bb[1], (bb[2] % 2) = 0) IN
           { FaultScript("fault-sdr-" \o ToString(bb[1]) \o "-" \o ToString(k) \o "-" \o kind, pre, 35, "n", k - 1, kind) : k \in 1..WalkReqs(pre), kind \in {"cc", "lost", "short"} }
+          \cup { LET b == FaultScript("fault-body-" \o ToString(bb[1]), pre, 35, "f", 0, "shortbody") IN
+                 \* fires on the first Get SDR whose offset is 5 (a body read), whenever that is
+                 [b EXCEPT !.steps = << [b.steps[1] EXCEPT !.rules = << [@[1] EXCEPT !.when = <<IsCmd(35), Eq(Slice(Plain, 10, 11), B(<<5>>))>>,
+                                                                                     !.ifstate = <<St("f", 0)>>, !.effects = <<Inc("n"), Set("f", 1)>>] >> \o Tail(@)],
+                                           b.steps[2] >>] }
           \cup { FaultScript("fault-info-" \o ToString(bb[1]) \o "-" \o ToString(i) \o "-" \o kind, pre, 32, "i", i, kind) : i \in 0..1, kind \in {"cc", "lost", "short"} }
           \cup { FaultScript("fault-resv-" \o ToString(bb[1]) \o "-" \o kind, pre, 34, "r", 0, kind) : kind \in {"cc", "lost", "short"} }
           : bb \in (IF Full THEN {<<3, 1>>, <<5, 2>>, <<2, 3>>} ELSE {<<3, 1>>}) }
